@@ -204,13 +204,17 @@ on...",
         if S not in MS:
             return None
 
-        restart_from = min([me.status.slot for me in MS if me.status.restart] + [size - 1])
+        # The steps change places in the next block. Update the counters of all steps in one go from a snapshot (when
+        # called for the first step), because updating them one step at a time overwrites counters that are still needed.
+        if S is not MS[0]:
+            return None
 
-        if S.status.slot < restart_from:
-            MS[restart_from - S.status.slot].status.restarts_in_a_row = 0
-        else:
-            step = MS[S.status.slot - restart_from]
-            step.status.restarts_in_a_row = S.status.restarts_in_a_row + 1 if S.status.restart else 0
+        restart_from = min([me.status.slot for me in MS if me.status.restart] + [size - 1])
+        previous = {me.status.slot: (me.status.restarts_in_a_row, me.status.restart) for me in MS}
+
+        for me in MS:
+            restarts_in_a_row, restart = previous.get(me.status.slot + restart_from, (0, False))
+            me.status.restarts_in_a_row = restarts_in_a_row + 1 if restart else 0
 
         return None
 
